@@ -8,6 +8,7 @@ import Verif.Lemmas.UnknownWC
 import Verif.Lemmas.UnknownLen
 import Verif.Lemmas.UnknownCW
 import Verif.Lemmas.UnknownEnc
+import Verif.Lemmas.UnknownSpecEnc
 namespace Verif.C13
 
 /-- The depth limit the source declares is the one C13 is claimed for. -/
@@ -71,6 +72,13 @@ theorem write_ok_of_WT (d : Nat) (fs : List (UF d)) (h : WTs d fs) : ∃ bs, wri
 theorem length_eq_write (d : Nat) (fs : List (UF d)) (bs : Bytes) (h : writeUFs d fs = .ok bs) :
     lenUFs d fs = .ok bs.length := lenUFs_of_writeUFs d fs bs h
 
+/-- On well-typed trees (any nesting) WriteUnknownFields writes exactly the spec encoding `ufSpecEncs` (the Thrift
+    Binary layout written down directly in Spec/Unknown) and UnknownFieldsLength is that encoding's length.
+    This is what the driver's `bad:C13:length` / `bad:C13:write-bytes` verdicts evaluate. -/
+theorem write_is_spec_encoding (d : Nat) (fs : List (UF d)) (h : fs.all (wt d) = true) :
+    writeUFs d fs = .ok (ufSpecEncs d fs) ∧ lenUFs d fs = .ok (ufSpecEncs d fs).length :=
+  writeUFs_eq_spec d fs h
+
 /-- The byte domain is a restriction of the shared Thrift grammar (Spec/Grammar `refLen`): the only extra
     requirement of `encLen` is that BOOL bytes are 0 or 1. -/
 theorem enc_is_grammar (d : Nat) (t : UInt8) (b : Bytes) (k : Nat) (h : encLen d t b = some k) :
@@ -90,6 +98,7 @@ example : WTs 64 exTree := by decide
 example : convertUF exBytes = .ok exTree := by decide
 example : writeUFs 64 exTree = .ok exBytes := by decide
 example : lenUFs 64 exTree = .ok 20 := by decide
+example : ufSpecEncs 64 exTree = exBytes := by decide
 
 /-- the tree the unfixed code produced (field 2 inherits the map's tags) is *not* well typed -/
 example : ¬ WTs 64 [(⟨1, 12, 0, 0⟩, .fields [(⟨1, 13, 8, 10⟩, .fields []), (⟨2, 8, 8, 10⟩, .i32 7)])] := by decide
